@@ -8,6 +8,7 @@ CONSTANTS
   Split = FALSE
   PeekStop = TRUE
   WireGaps = TRUE
+  CutStop = TRUE
 SPECIFICATION Spec
 INVARIANT TimingExact
 CHECK_DEADLOCK TRUE
